@@ -336,7 +336,9 @@ def _alloc_like(e, st, node, x, fill=None, dtype=None):
 @prim('np.arange')
 def _arange(e, st, node, n, hi=None):
     if hi is None:
-        return e.new_obj(st, e.lam(lambda i: i, (to_z3(n),), 'int'))
+        a = e.lam(lambda i: i, (to_z3(n),), 'int')
+        a.meta = {'arange': True}
+        return e.new_obj(st, a)
     lo, hi = to_z3(n), to_z3(hi)
     return e.new_obj(st, e.lam(lambda i: lo + i, (z3.If(hi > lo, hi - lo, 0),), 'int'))
 
@@ -428,6 +430,8 @@ def _where(e, st, node, mask, x=None, y=None):
         kind = 'real' if 'real' in kinds else kinds[0]
         g = lambda v, ix: e.num(v[tuple(ix)] if isinstance(v, Arr) else to_z3(v), kind)
         return e.new_obj(st, e.lam(lambda *ix: z3.If(m[tuple(ix)], g(X, ix), g(Y, ix)), m.shape, kind))
+    if m.ndim == 2:
+        return _where2d(e, st, node, m)
     if m.ndim != 1:
         raise Unsupported('np.where on n-d mask')
     W = e.fresh('where', e.arr_sort('int'))
@@ -701,7 +705,9 @@ def _where2d(e, st, node, m):
               z3.ForAll([i, j], z3.Implies(z3.And(0 <= i, i < j, j < cnt), z3.Or(R_[i] < R_[j], z3.And(R_[i] == R_[j], C_[i] < C_[j])))),
               z3.ForAll([i, j], z3.Implies(z3.And(0 <= i, i < m.shape[0], 0 <= j, j < m.shape[1], m[i, j]),
                                            z3.And(rk(i, j) >= 0, rk(i, j) < cnt, R_[rk(i, j)] == i, C_[rk(i, j)] == j)))]
-    return Tup([e.new_obj(st, Arr(R_, (cnt,), 'int')), e.new_obj(st, Arr(C_, (cnt,), 'int'))])
+    t = Tup([e.new_obj(st, Arr(R_, (cnt,), 'int')), e.new_obj(st, Arr(C_, (cnt,), 'int'))])
+    t.where_mask = m          # indexing with this tuple is indexing with the mask itself
+    return t
 
 
 @prim('ra.where')
@@ -800,3 +806,44 @@ def _reshape(e, st, node, recv, *shape):
 @prim('str', 'repr')
 def _str(e, st, node, x=None):
     return Str()
+
+
+@prim('sparse.issparse', 'scipy.sparse.issparse', 'scipy.sparse.isspmatrix', 'sparse.isspmatrix')
+def _issparse(e, st, node, x):
+    """dense branch: the executor's arrays are dense ndarrays (sparse containers are covered by the bounded drivers)"""
+    return False
+
+
+@prim('scipy.sparse.linalg.spsolve', 'np.linalg.solve', 'spsolve')
+def _solve(e, st, node, M, R):
+    """exact solution X of M X = R (trusted); the relation is a ghost predicate used by the Lean lemmas"""
+    m, r = e.deref(st, M), e.deref(st, R)
+    if not (isinstance(m, Arr) and m.ndim == 2 and isinstance(r, Arr)):
+        raise Unsupported('solve form')
+    e.emit(e.site('shape', node), st, z3.And(m.shape[0] == m.shape[1], r.shape[0] == m.shape[0]))
+    X = e.fresh('solution', r.term.sort())
+    rel = z3.Function('SOLVES_%dd' % r.ndim, m.term.sort(), r.term.sort(), r.term.sort(), z3.BoolSort())
+    st.pc.append(rel(m.term, r.term, X))
+    return e.new_obj(st, Arr(X, r.shape, 'real'))
+
+
+@prim('warnings.simplefilter')
+def _simplefilter(e, st, node, *a, **k):
+    return NONE
+
+
+_old_reshape = P.methods['reshape']
+
+
+@method('reshape')
+def _reshape2(e, st, node, recv, *shape):
+    a = e.deref(st, recv)
+    dims = [e.deref(st, d) for d in shape]
+    if len(dims) == 1 and isinstance(dims[0], Tup):
+        dims = [e.deref(st, d) for d in dims[0].items]
+    if isinstance(a, Arr) and a.ndim == 2 and len(dims) == 2:
+        d0, d1 = to_z3(dims[0]), to_z3(dims[1])
+        if is_sym(d0) and is_sym(d1) and z3.eq(z3.simplify(d0), z3.simplify(a.shape[0])) and z3.eq(z3.simplify(d1), z3.simplify(a.shape[1])):
+            return e.new_obj(st, Arr(a.term, a.shape, a.kind, a.init, a.meta))      # same shape: identity
+        raise Unsupported('2-d reshape to a different shape')
+    return _old_reshape(e, st, node, recv, *shape)
